@@ -460,6 +460,7 @@ func (w *World) Play() {
 	obs := w.Obs
 	cur := make([]cursor, len(sc.Actors))
 	w.eps = make([]*simnet.Endpoint, len(sc.Actors))
+	w.tls = nil // (legs belong to the actors of one Play)
 	obs.Conns = make([]ConnObs, len(sc.Actors))
 	for i, a := range sc.Actors {
 		obs.Conns[i] = ConnObs{Actor: i, Kind: a.Kind, OpStep: make([]int, len(a.Ops)), OpDoneStep: make([]int, len(a.Ops))}
